@@ -313,6 +313,15 @@ def _impl_sig(text: str):
             "multi": bool(allargs) and allargs[0].lineno != fn.lineno}
 
 
+def _f47_shape(c: dict) -> bool:
+    """F47's input feature: a client COROUTINE whose signature mentions `AsyncIterator` only inside a longer type name
+    (`AsyncIteratorResult`).  A method that is really annotated `AsyncIterator[...]` (a stream) and is not an async generator is a
+    different defect and is not absorbed by that finding."""
+    import re
+    sig = str(c.get("sig"))
+    return c.get("nature") == "coroutine" and bool(re.search(r"AsyncIterator\w", sig)) and not re.search(r"\bAsyncIterator\[", sig)
+
+
 def _impl_nature(text: str, name: str | None):
     import inspect
     import typing
@@ -935,7 +944,7 @@ def _evaluate(doc: dict, root: str, scratch: str) -> tuple[int, list[dict]]:
                     fail("protocol-signature", {"module": m, "method": name, "proto": p["sig"], "client": c["sig"]}, "equal")
                 want_nat = "plain" if c["nature"] == "asyncgen" else c["nature"]   # documented convention for async generators
                 if p["nature"] != want_nat:
-                    fail("protocol-async-dropped" if ("AsyncIterator" in str(c["sig"]) and c["nature"] == "coroutine") else "protocol-nature-differs", {"module": m, "method": name, "proto": p["nature"], "client": c["nature"]}, want_nat)
+                    fail("protocol-async-dropped" if _f47_shape(c) else "protocol-nature-differs", {"module": m, "method": name, "proto": p["nature"], "client": c["nature"]}, want_nat)
         if not info["mock_module"] or info.get("mock") is None:
             n += 1
             if not any("mock" in e["module"] for e in import_errs) or not info["mock_module"]:
@@ -956,7 +965,7 @@ def _evaluate(doc: dict, root: str, scratch: str) -> tuple[int, list[dict]]:
                 fail("mock-signature", {"module": m, "method": name, "mock": k["sig"], "client": c["sig"]}, "equal")
             if k["nature"] != c["nature"]:
                 # F47 is recorded for signatures that MENTION `AsyncIterator` in a type NAME (AsyncIteratorResult) only
-                f47 = "AsyncIterator" in str(c["sig"]) and c["nature"] == "coroutine"
+                f47 = _f47_shape(c)
                 fail("mock-asyncgen-nature" if f47 else "mock-nature-differs", {"module": m, "method": name, "mock": k["nature"], "client": c["nature"]}, "equal")
             elif not k["call"].startswith("NotImplementedError:"):
                 fail("mock-does-not-raise", {"module": m, "method": name, "call": k["call"]}, "NotImplementedError")
